@@ -1,3 +1,4 @@
+import CarModel.Proofs.ReadOrGen
 import CarModel.Proofs.IndexGen
 import CarModel.Proofs.FactsTie
 import CarModel.Proofs.IndexSearch
@@ -100,5 +101,23 @@ theorem generated_index_lookup_exact (kind : SrcKind) (o : IdxOpts) (codec : Nat
     injection hix with hix
     subst hix
     exact index_getAll_load codec _ ix' hl hoff c off
+
+
+/-- (6) **`ReadOrGenerateIndex`** on every valid input: a CARv1 and an index-less CARv2 (any paddings) are
+    indexed exactly as `GenerateIndex` indexes them — so (1)–(5) apply to the result, offsets relative
+    to the payload — and a CARv2 that carries a well-formed index gets that index back unchanged,
+    whatever codec or identity option the caller passes. -/
+theorem readOrGenerate_cases (o : IdxOpts) (codec : Nat) (dp ip : Nat) (roots : Option (List Cid)) (bs : List Block)
+    (fi : Bool) (ix : Index) (hix : ix.wf)
+    (hwf : (CarHeader.mk roots 1).wf) (hmax : (encodeHeaderBody ⟨roots, 1⟩).length ≤ o.maxHeader)
+    (h63 : (encodeHeaderBody ⟨roots, 1⟩).length < 2 ^ 63) (h10 : 10 ≤ o.maxHeader)
+    (lok : LayoutOK dp ip (payload roots bs).length) :
+    readOrGenerateIndex o codec (payload roots bs) = generateIndex .seekable o codec (payload roots bs) ∧
+    readOrGenerateIndex o codec (layoutV2 dp ip (payload roots bs) false fi [])
+      = generateIndex .seekable o codec (layoutV2 dp ip (payload roots bs) false fi []) ∧
+    readOrGenerateIndex o codec (layoutV2 dp ip (payload roots bs) true fi ix.bytes) = .ok ix :=
+  ⟨readOrGenerate_v1 o codec roots bs hwf hmax h63,
+   readOrGenerate_indexless o codec dp ip roots bs fi h10 lok,
+   readOrGenerate_embedded o codec dp ip roots bs fi ix hix h10 lok⟩
 
 end Car.C03
